@@ -330,7 +330,13 @@ func c14RefuseRestart(r *R) {
 		r.Count("fault:refuse-period")
 	case 1:
 		_ = b.Stop()
-		nw.CrashNode(2) // the peer *process* is gone: its operating system closes the sockets it left open
+		if r.Chance(60) {
+			nw.CrashNode(2) // the peer *process* is gone: its operating system closes the sockets it left open
+		} else {
+			// the peer system is stopped and started again inside a process that lives on (an embedded system, a test): nobody
+			// closes what Stop left open
+			r.Count("fault:peer-restart-inside-a-living-process")
+		}
 		vsimrt.Sleep(period)
 		nb := StartRNode(r, nw, 3, c14AddrB, opt)
 		if r.Failed() {
